@@ -155,6 +155,7 @@ _u06.append(_pm('C06_vine.cpp', 'v_ru_pos_rm', flavour=1, idx=1, vine=1, removab
 _kf6 = _pm('C06_vine.cpp', 'v_ru_pos_rm_kf', flavour=1, idx=1, vine=1, removable=1, m=4, extra=['VP_K=2', 'VP_KF_RU_RM'], weight=8, must=()); _kf6['kf'] = 'C06-ru-swap-after-inner-removal'; _u06.append(_kf6)
 _u06.append(_pm('C06_vine.cpp', 'v_ru_pos_m5k3', flavour=1, idx=1, vine=1, m=5, extra=['VP_K=3'], weight=10, must=('end', 'swap')))
 _u06.append(_pm('C06_vine.cpp', 'v_ru_pos_vector_m5k3', col='VECTOR', flavour=1, idx=1, vine=1, m=5, extra=['VP_K=3'], weight=10, must=('end', 'swap')))
+_u06.append(_pm('C06_vine.cpp', 'v_ru_pos_vector_graph_m8k2', col='VECTOR', flavour=1, idx=1, vine=1, m=8, nv=4, extra=['VP_K=2', 'VP_MAXDIM=1', 'VP_FORKCELL'], tiers=['thorough'], weight=40, must=('end', 'swap')))
 _u06.append(_pm('C06_vine.cpp', 'v_chain_pos_m5k3', flavour=2, idx=1, vine=1, m=5, extra=['VP_K=3'], weight=10, must=('end', 'swap')))
 for ci, col in enumerate(_COLS):
     for fl in (1, 2):
@@ -278,7 +279,7 @@ PROPS['C12'] = dict(
   outside=['graphs with more than 5 vertices', 'TBB parallel sort (sequential build only)'],
   units=[U('collapse_n4_w3', 'C12_collapse.cpp', ['VP_N=4', 'VP_WMAX=3', 'VP_WT=double', 'VP_GRIDW'], cflags=['-U__SSE2__'], weight=10), U('collapse_n4_w2_dense_labels', 'C12_collapse.cpp', ['VP_N=4', 'VP_WMAX=2', 'VP_LABELS=1', 'VP_WT=double', 'VP_GRIDW', 'GUDHI_COLLAPSE_USE_DENSE_ARRAY'], cflags=['-U__SSE2__'], weight=8),
          U('collapse_n5_w1', 'C12_collapse.cpp', ['VP_N=5', 'VP_WMAX=1', 'VP_WT=double', 'VP_GRIDW'], cflags=['-U__SSE2__'], weight=10), U('collapse_n5_w2', 'C12_collapse.cpp', ['VP_N=5', 'VP_WMAX=2', 'VP_WT=double', 'VP_GRIDW'], cflags=['-U__SSE2__'], tiers=['thorough'], weight=60),
-         U('collapse_octahedron_w3_dense', 'C12_collapse.cpp', ['VP_N=6', 'VP_WMAX=3', 'VP_WT=double', 'VP_GRIDW', 'VP_GRAPH=1', 'GUDHI_COLLAPSE_USE_DENSE_ARRAY'], cflags=['-U__SSE2__'], tiers=['thorough'], weight=60, budget=3300), U('collapse_octahedron_w3', 'C12_collapse.cpp', ['VP_N=6', 'VP_WMAX=3', 'VP_WT=double', 'VP_GRIDW', 'VP_GRAPH=1'], cflags=['-U__SSE2__'], tiers=['thorough'], weight=60, budget=3300), U('collapse_k6_w2_dense', 'C12_collapse.cpp', ['VP_N=6', 'VP_WMAX=2', 'VP_WT=double', 'VP_GRIDW', 'VP_GRAPH=2', 'GUDHI_COLLAPSE_USE_DENSE_ARRAY'], cflags=['-U__SSE2__'], tiers=['thorough'], weight=60, budget=3300), U('collapse_n5_w3_dense', 'C12_collapse.cpp', ['VP_N=5', 'VP_WMAX=3', 'VP_WT=double', 'VP_GRIDW', 'GUDHI_COLLAPSE_USE_DENSE_ARRAY'], cflags=['-U__SSE2__'], tiers=['thorough'], weight=60), U('collapse_n4_float_w4', 'C12_collapse.cpp', ['VP_N=4', 'VP_WMAX=4', 'VP_WT=float', 'VP_GRIDW'], cflags=['-U__SSE2__'], tiers=['thorough'], weight=40)])
+         U('collapse_octahedron_w3_dense', 'C12_collapse.cpp', ['VP_N=6', 'VP_WMAX=3', 'VP_WT=double', 'VP_GRIDW', 'VP_GRAPH=1', 'GUDHI_COLLAPSE_USE_DENSE_ARRAY'], cflags=['-U__SSE2__'], tiers=['thorough'], weight=60, budget=3300), U('collapse_octahedron_w3', 'C12_collapse.cpp', ['VP_N=6', 'VP_WMAX=3', 'VP_WT=double', 'VP_GRIDW', 'VP_GRAPH=1'], cflags=['-U__SSE2__'], tiers=['thorough'], weight=60, budget=3300), U('collapse_k6_w2_dense', 'C12_collapse.cpp', ['VP_N=6', 'VP_WMAX=2', 'VP_WT=double', 'VP_GRIDW', 'VP_FORKW', 'VP_GRAPH=2', 'GUDHI_COLLAPSE_USE_DENSE_ARRAY'], cflags=['-U__SSE2__'], tiers=['thorough'], weight=60, budget=3300), U('collapse_n5_w3_dense', 'C12_collapse.cpp', ['VP_N=5', 'VP_WMAX=3', 'VP_WT=double', 'VP_GRIDW', 'GUDHI_COLLAPSE_USE_DENSE_ARRAY'], cflags=['-U__SSE2__'], tiers=['thorough'], weight=60), U('collapse_n4_float_w4', 'C12_collapse.cpp', ['VP_N=4', 'VP_WMAX=4', 'VP_WT=float', 'VP_GRIDW'], cflags=['-U__SSE2__'], tiers=['thorough'], weight=40)])
 
 # ------------------------------------------------------------------------------------------------ C11
 _t11 = ['end', 'full', 'lower', 'upper', 'sparse']
